@@ -211,6 +211,18 @@ fn main() {
     }
 }
 
+/// `text` as a raw Rust string literal; Rust source cannot hold a carriage return that is not followed by a line feed
+/// inside a raw string ("bare CR not allowed in raw string"), so such a text is spelled as a cooked literal with `\r`
+fn raw_literal(text: &str) -> String {
+    let b = text.as_bytes();
+    let bare_cr = (0..b.len()).any(|i| b[i] == b'\r' && b.get(i + 1) != Some(&b'\n'));
+    if bare_cr {
+        format!("{:?}", text)
+    } else {
+        format!("r################\"{}\"################", text)
+    }
+}
+
 /// `text` as a cooked Rust string literal with some backslash-newline continuations at places where the character after
 /// the continuation is not white space (so the value of the literal is exactly `text`)
 fn cooked_with_continuations(text: &str, seed: u64) -> String {
@@ -246,7 +258,7 @@ fn build_batch(specs: Vec<GrammarSpec>, out: &Path, crates: usize, plan: &str, s
         let text = if h % 3 == 0 || has_latin1_class {
             let lb = verif_core::plans::rng_bytes(h, "batch-layout", 0, 600);
             let mut src = verif_core::util::Src::new(&lb);
-            printer::print_with(&with_w, &mut src, h % 2 == 0).0
+            printer::print_with_stable(&with_w, &mut src, h % 2 == 0).0
         } else {
             printer::print_canonical(&with_w)
         };
@@ -302,14 +314,14 @@ fn build_batch(specs: Vec<GrammarSpec>, out: &Path, crates: usize, plan: &str, s
                                 _ => format!("compile_error!(\"the build-script helper failed on a grammar the library accepts\");\n"),
                             }
                         }
-                        0 => format!("peginator_macro::peginate!(r################\"{}\"################);\n", text),
+                        0 => format!("peginator_macro::peginate!({});\n", raw_literal(&text)),
                         1 => format!("peginator_macro::peginate!({:?});\n", text),
                         2 => format!("peginator_macro::peginate!({});\n", cooked_with_continuations(&text, h)),
                         // the literal forwarded by a macro_rules! wrapper (it arrives inside an invisible group), with a
                         // trailing comma
                         _ => format!(
-                            "macro_rules! vb_forward__ {{ ($g:literal) => {{ peginator_macro::peginate!($g); }}; }}\nvb_forward__!(r################\"{}\"################);\n",
-                            text
+                            "macro_rules! vb_forward__ {{ ($g:literal) => {{ peginator_macro::peginate!($g); }}; }}\nvb_forward__!({});\n",
+                            raw_literal(&text)
                         ),
                     }
                 } else {
